@@ -19,7 +19,7 @@ MANIFEST = {
              'is within the helper\'s tolerance and is reported with the cofactor. Reals, not floats.'),
 }
 EXPLANATION = 'Whole-step SVN terms of the TrainState bookkeeping fields compared with the kinematic reference formulas.'
-RULES = ['C12-1.time', 'C12-2.offset', 'C12-3.rear', 'C12-4.dist', 'C12-5.link', 'C12-6.init']
+RULES = ['C12-1.time', 'C12-2.offset', 'C12-3.rear', 'C12-4.dist', 'C12-5.link', 'C12-6.init', 'C12-7.records']
 ASSUMPTIONS = ['dt > 0', 'identities over the reals']
 
 SIMS = {
@@ -90,6 +90,14 @@ def run(ctx):
     ctx.floor('train step roots analysed', n, 2)
     link_search(ctx)
     initial_state(ctx)
+    # 'saved time increases by exactly the step size' is a statement about consecutive RECORDS: besides the step relations it needs
+    # exactly one record per step, whichever entry point drives the run, saved before the counters move (clauses of C19, shared)
+    if not getattr(ctx, '_c12_nested', False):
+        from .common import RuleProxy
+        from . import C19
+        px = RuleProxy(ctx, {'C19-6.drivers': 'C12-7.records', 'C19-2.order': 'C12-7.records'})
+        C19.drivers(px)
+        C19.order(px, engine(ctx))
 
 
 def _deref_chain(t):
